@@ -47,7 +47,7 @@ type lintFunction struct {
 }
 
 func runC05(c *core.Ctx) {
-	c.Explanation = "Cross-table agreement, decided by extracting both sides' compiled tables from typed syntax and SSA and comparing them cell by cell (nothing is executed): (ref.stmt) the scope sets in which the linter admits restart / error / synthetic / esi equal the scope sets in which the simulator executes them; (ref.return) every return(action) the linter admits in a scope has a successor in the simulator's transition function (the table extracted for C06); (ref.func) every built-in the linter knows exists in the simulator's function table with at least the linter's scopes, every arity the linter admits is accepted by the simulator's validator and every argument kind agrees with the simulator's argument table (STRING parameters accept anything the simulator stringifies); (ref.var) for every predefined variable × {get,set,unset} × scope the linter admits, the simulator's variable object for that scope has a case, pattern or prefix for the name somewhere along its Get/Set/Unset chain — absence means the access can only end in the `undefined variable` error; (ref.vartype) where the simulator's case returns a value of statically known kind it is the kind the linter promises; (ref.settype) the storage a Set arm hands to doAssign has the kind the linter declares settable for that variable; (ref.op) for every assignment operator × left kind × right kind × {literal, variable} the linter's type switch admits, a partial evaluation of the simulator's implementation with the kinds bound finds a path that returns no error. Necessary for: what lints clean does not fail in the simulator as undefined, out of scope, mistyped or with a wrong arity. (ref.multiscope) the accessors of the linter context (Get, Set, Unset, GetFunction) admit an access only when `Scopes & current == current` (every annotated scope allows it), not on mere overlap."
+	c.Explanation = "Cross-table agreement, decided by extracting both sides' compiled tables from typed syntax and SSA and comparing them cell by cell (nothing is executed): (ref.stmt) the scope sets in which the linter admits restart / error / synthetic / esi equal the scope sets in which the simulator executes them; (ref.return) every return(action) the linter admits in a scope has a successor in the simulator's transition function (the table extracted for C06); (ref.func) every built-in the linter knows exists in the simulator's function table with at least the linter's scopes, every arity the linter admits is accepted by the simulator's validator and every argument kind agrees with the simulator's argument table (STRING parameters accept anything the simulator stringifies); (ref.var) for every predefined variable × {get,set,unset} × scope the linter admits, the simulator's variable object for that scope has a case, pattern or prefix for the name somewhere along its Get/Set/Unset chain — absence means the access can only end in the `undefined variable` error; (ref.vartype) where the simulator's case returns a value of statically known kind it is the kind the linter promises; (ref.settype) the storage a Set arm hands to doAssign has the kind the linter declares settable for that variable; (ref.op) for every assignment operator × left kind × right kind × {literal, variable} the linter's type switch admits, a partial evaluation of the simulator's implementation with the kinds bound finds a path that returns no error. Necessary for: what lints clean does not fail in the simulator as undefined, out of scope, mistyped or with a wrong arity. (ref.multiscope) the accessors of the linter context (Get, Set, Unset, GetFunction) admit an access only when `Scopes & current == current` (every annotated scope allows it), not on mere overlap. (ref.litpred) all lint*Operator call sites decide literal / variable with the same predicate."
 	c.NotCovered = []string{"that the linter's tables equal Fastly's documentation (the bundled YAML is the reference; only the generated Go tables are compared with each other)", "values the simulator returns for a variable", "run-time failures that depend on operand values (division by zero, parse errors)"}
 	lp := c.Prog.Pkg("linter/context")
 	if lp == nil {
@@ -73,6 +73,7 @@ func runC05(c *core.Ctx) {
 	checkOperatorCells(c)
 	checkMultiScope(c)
 	checkLiteralPredicate(c)
+	checkStatementScopeGuards(c)
 }
 
 // ---------- helpers over composite literals
@@ -1135,4 +1136,66 @@ func checkLiteralPredicate(c *core.Ctx) {
 		}
 	}
 	c.Floor("ref.litpred", 4)
+}
+
+// checkStatementScopeGuards (ref.multiscope, statements): the statement linters admit restart / error / synthetic by
+// a test of the current mode against a constant set of scopes. In a subroutine annotated with (or inferred to run in)
+// several scopes the mode has several bits: `mode & allowed == 0` only asks whether *some* scope allows the
+// statement, and the simulator fails in the others. Next to every such overlap test the same function must test that
+// no bit lies outside the set (`mode &^ allowed != 0`, or `mode & allowed != mode`).
+func checkStatementScopeGuards(c *core.Ctx) {
+	n := 0
+	for _, fn := range c.Prog.ModuleFuncs("linter") {
+		if fn.Pkg == nil || fn.Pkg.Pkg.Path() != core.ModPath+"/linter" {
+			continue
+		}
+		isMode := func(v ssa.Value) bool {
+			call, ok := v.(*ssa.Call)
+			return ok && call.Common().StaticCallee() != nil && call.Common().StaticCallee().Name() == "Mode"
+		}
+		var overlap []*ssa.BinOp
+		outside := map[int64]bool{}
+		for _, b := range fn.Blocks {
+			for _, in := range b.Instrs {
+				bo, ok := in.(*ssa.BinOp)
+				if !ok || bo.Referrers() == nil {
+					continue
+				}
+				k, isK := core.ConstIntValue(bo.Y)
+				if !isMode(bo.X) || !isK {
+					continue
+				}
+				for _, r := range *bo.Referrers() {
+					cmp, isCmp := r.(*ssa.BinOp)
+					if !isCmp || (cmp.Op != token.EQL && cmp.Op != token.NEQ) {
+						continue
+					}
+					other := cmp.Y
+					if cmp.Y == ssa.Value(bo) {
+						other = cmp.X
+					}
+					z, isZ := core.ConstIntValue(other)
+					switch {
+					case bo.Op == token.AND && isZ && z == 0:
+						overlap = append(overlap, bo)
+					case bo.Op == token.AND_NOT && isZ && z == 0:
+						outside[k] = true
+					case bo.Op == token.AND && isMode(other):
+						outside[k] = true
+					}
+				}
+			}
+		}
+		for i, bo := range overlap {
+			k, _ := core.ConstIntValue(bo.Y)
+			n++
+			key := fmt.Sprintf("%s|mode&set#%d", core.FnName(fn), i+1)
+			if outside[k] {
+				c.Discharge("ref.multiscope", key, bo.Pos(), "the same function also rejects a mode with a scope outside the set")
+			} else {
+				c.Report("ref.multiscope", key, bo.Pos(), fmt.Sprintf("%s admits the statement when the current mode merely overlaps the allowed scopes (`mode & set == 0` is its only test): in a subroutine that runs in several scopes (`// @scope: recv, miss`) the statement lints clean although one of the scopes forbids it, and the simulator fails there", core.FnName(fn)))
+			}
+		}
+	}
+	_ = n
 }
